@@ -321,8 +321,47 @@ def gen_scalars(r, n):
   for _ in range(n):
     f = r.choice(['Range', 'Size', 'Element', 'Subscript', 'Sort', 'ArrayConcat', 'Concat', 'Join',
                   'Split', 'ToString', 'ToInt64', 'Least', 'Greatest', 'Plus', 'Minus', 'Times',
-                  'SizeRange', 'InFilter', 'Cmp', 'Empty', 'Empty', 'Boundary', 'Boundary', 'Compose', 'Nested', 'Nested'])
-    if f == 'Nested':
+                  'SizeRange', 'InFilter', 'Cmp', 'Empty', 'Empty', 'Boundary', 'Boundary', 'Compose', 'Nested', 'Nested',
+                  'Strings', 'Strings', 'AggOfAgg'])
+    if f == 'Strings':
+      sep = r.choice([',', '--', ' ', 'ab'])
+      parts = r.choice([['a', 'b', ''], ['', 'a'], ['', ''], ['x'], ['a', '', 'b'], ['1', '22', '333'], ['ab', 'ba']])
+      if any(sep in p_ for p_ in parts):
+        parts = ['x', 'y', '']
+      text_ = sep.join(parts)
+      which = r.choice(['Split', 'RoundTrip', 'SizeSplit', 'ConcatEmpty', 'ToStringStr', 'JoinInts', 'ConcatToString'])
+      if which == 'Split':
+        cells.append(['Split', 'Split(%s, %s)' % (lit(text_), lit(sep)), text_.split(sep)])
+      elif which == 'RoundTrip':
+        cells.append(['Join', 'Join(Split(%s, %s), %s)' % (lit(text_), lit(sep), lit(sep)), text_])
+      elif which == 'SizeSplit':
+        cells.append(['Size', 'Size(Split(%s, %s))' % (lit(text_), lit(sep)), len(text_.split(sep))])
+      elif which == 'ConcatEmpty':
+        a = r.choice(strs)
+        cells.append(['Concat', '"" ++ %s ++ ""' % lit(a), a])
+      elif which == 'ToStringStr':
+        a = r.choice(['abc', '', '12', 'x y'])
+        cells.append(['ToString', 'ToString(%s)' % lit(a), a])
+      elif which == 'JoinInts':
+        l = r.choice([[1, 2, 3], [10], [0, 0], [-1, 5]])
+        cells.append(['Join', 'Join(%s, %s)' % (lit(l), lit(sep)), sep.join(map(str, l))])
+      else:
+        a, b = r.choice(ints), r.choice(strs)
+        cells.append(['Concat', 'ToString(%s) ++ %s' % (lit(a), lit(b)), str(a) + b])
+    elif f == 'AggOfAgg':
+      n_, m_ = r.choice([1, 2, 3, 4]), r.choice([1, 2, 3])
+      which = r.choice(['SizeSet', 'SizeList', 'FirstOfSortedSet', 'LastOfSortedList'])
+      sums = [x + y for x in range(n_) for y in range(m_)]
+      body = 'x + y :- x in Range(%d), y in Range(%d)' % (n_, m_)
+      if which == 'SizeSet':
+        cells.append(['Size', ('Where', 'Size(s)', 's Set= (%s)' % body), len(set(sums))])
+      elif which == 'SizeList':
+        cells.append(['Size', ('Where', 'Size(s)', 's List= (%s)' % body), len(sums)])
+      elif which == 'FirstOfSortedSet':
+        cells.append(['Element', ('Where', 'Element(Sort(s), 0)', 's Set= (%s)' % body), min(sums)])
+      else:
+        cells.append(['Element', ('Where', 'Element(Sort(s), %d)' % (len(sums) - 1), 's List= (%s)' % body), max(sums)])
+    elif f == 'Nested':
       a, b, c = r.choice(ints), r.choice(ints), r.choice(ints)
       form, val = r.choice([
           ('%s - (%s - %s)', a - (b - c)), ('%s - %s - %s', a - b - c), ('%s * (%s + %s)', a * (b + c)),
